@@ -37,8 +37,9 @@ def main(argv: List[str]) -> int:
                                                            (None, {'settings_order': 'reversed'}), (None, {'note_pos': 'first'})]
             for fseed, pinned in plan:
                 tid += 1
+                # (the option must be honoured however the text is handed over: as a string, a Path, an open file)
                 items[tid] = {'tid': tid, 'doc': doc, 'allow': True, 'want': 'props', 'fseed': fseed, 'pinned': pinned,
-                              'seed': seed, 'gen': 'RandDocP', 'variant': with_props}
+                              'seed': seed, 'gen': 'RandDocP', 'variant': with_props, 'via': ('str', 'path', 'file')[tid % 3]}
     res = docs.run_items(list(items.values()), rep, 'C15')
     doccheck.judge('C15', rep, res, items, lambda it: True)
     from . import census
